@@ -74,9 +74,27 @@ func (k *poolKey) signer() crypto.Signer {
 	return k.ed
 }
 
-func (k *poolKey) dnskey(flags uint16) *dns.DNSKEY {
+// ownerName: 0 is the root; n > 0 some other owner name (everything is inside ".").
+func ownerName(n int) string {
+	if n == 0 {
+		return "."
+	}
+	return fmt.Sprintf("o%d.trust-anchor.invalid.", n)
+}
+
+func ownerOf(name string) int {
+	var n int
+	if _, err := fmt.Sscanf(name, "o%d.trust-anchor.invalid.", &n); err == nil {
+		return n
+	}
+	return 0
+}
+
+func (k *poolKey) dnskey(flags uint16) *dns.DNSKEY { return k.dnskeyAt(flags, 0) }
+
+func (k *poolKey) dnskeyAt(flags uint16, owner int) *dns.DNSKEY {
 	return &dns.DNSKEY{
-		Hdr:       dns.RR_Header{Name: ".", Rrtype: dns.TypeDNSKEY, Class: dns.ClassINET, Ttl: 3600},
+		Hdr:       dns.RR_Header{Name: ownerName(owner), Rrtype: dns.TypeDNSKEY, Class: dns.ClassINET, Ttl: 3600},
 		Flags:     flags,
 		Protocol:  3,
 		Algorithm: k.alg,
@@ -93,18 +111,36 @@ type kref struct {
 	id    int
 	flags uint16
 	tag   uint16
+	owner int // 0 = ".", n > 0 = another owner name
 }
 
 func mk(id int, flags uint16) kref { return kref{id: id, flags: flags, tag: tagOf(id, flags)} }
 
-func (k kref) String() string { return fmt.Sprintf("%d.%d.%d", k.id, k.flags, k.tag) }
+func (k kref) String() string {
+	if k.owner != 0 {
+		return fmt.Sprintf("%d.%d.%d@%d", k.id, k.flags, k.tag, k.owner)
+	}
+	return fmt.Sprintf("%d.%d.%d", k.id, k.flags, k.tag)
+}
 
-func (k kref) rr() *dns.DNSKEY { return getKey(k.id).dnskey(k.flags) }
+func (k kref) at(owner int) kref { k.owner = owner; return k }
+
+func (k kref) rr() *dns.DNSKEY { return getKey(k.id).dnskeyAt(k.flags, k.owner) }
 
 func (k kref) sep() bool     { return k.flags&1 != 0 }
 func (k kref) revoked() bool { return k.flags&0x80 != 0 }
 
 func parseRef(s string) kref {
+	owner := 0
+	if body, o, ok := strings.Cut(s, "@"); ok {
+		s, owner = body, vlib.Atoi(o)
+	}
+	k := parseRef0(s)
+	k.owner = owner
+	return k
+}
+
+func parseRef0(s string) kref {
 	p := strings.Split(s, ".")
 	if len(p) != 3 {
 		panic("bad keyref " + s)
@@ -173,7 +209,69 @@ func newSig(k kref, incep, exp time.Time) *dns.RRSIG {
 	}
 }
 
-func buildAnswer(fetch, signers []kref, bad []badSig) []dns.RR {
+// extra is another RRset of the answer section: DNSKEY records under another owner name
+// (keys, all with the same owner > 0) or, without keys, a TXT RRset owned by "."; signers
+// validly sign exactly that RRset with signer name ".".
+type extra struct {
+	keys    []kref
+	signers []kref
+}
+
+// x=<keys|->:<signers|->;...
+func parseExtras(s string) []extra {
+	var out []extra
+	for _, e := range strings.Split(s, ";") {
+		ks, ss, _ := strings.Cut(e, ":")
+		out = append(out, extra{keys: parseRefs(ks), signers: parseRefs(ss)})
+	}
+	return out
+}
+
+func fmtExtras(xs []extra) string {
+	var parts []string
+	for _, e := range xs {
+		parts = append(parts, joinRefs(e.keys)+":"+joinRefs(e.signers))
+	}
+	return strings.Join(parts, ";")
+}
+
+func (e extra) rrset(i int) []dns.RR {
+	var set []dns.RR
+	for _, k := range e.keys {
+		set = append(set, k.rr())
+	}
+	if len(set) == 0 {
+		set = append(set, &dns.TXT{Hdr: dns.RR_Header{Name: ".", Rrtype: dns.TypeTXT, Class: dns.ClassINET, Ttl: 3600},
+			Txt: []string{fmt.Sprintf("extra rrset %d", i)}})
+	}
+	return set
+}
+
+func signSet(k kref, set []dns.RR) *dns.RRSIG {
+	now := time.Now()
+	sig := newSig(k, now.Add(-24*time.Hour), now.Add(7*24*time.Hour))
+	sig.Hdr.Name = set[0].Header().Name
+	sig.TypeCovered = set[0].Header().Rrtype
+	sig.Labels = uint8(dns.CountLabel(set[0].Header().Name))
+	if err := sig.Sign(getKey(k.id).signer(), set); err != nil {
+		panic(err)
+	}
+	return sig
+}
+
+func buildAnswer(fetch, signers []kref, bad []badSig, extras ...extra) []dns.RR {
+	out := buildRootSet(fetch, signers, bad)
+	for i, e := range extras {
+		set := e.rrset(i)
+		out = append(out, set...)
+		for _, k := range e.signers {
+			out = append(out, signSet(k, set))
+		}
+	}
+	return out
+}
+
+func buildRootSet(fetch, signers []kref, bad []badSig) []dns.RR {
 	var set []dns.RR
 	for _, k := range fetch {
 		set = append(set, k.rr())
